@@ -311,7 +311,12 @@ func (w *worker[T, JobType]) processNextJob() error {
 			return ErrFailedToCastJob
 		}
 
+		// a job parsed here is private to this goroutine until it is dispatched, and it is the
+		// only kind that acknowledges itself (on the queue set here). A job that the queue holds as
+		// a value has a handle whose Close may read the field concurrently, and never acknowledges:
+		// its id is not recorded, even when a queue of the user's own hands one out.
 		j.setInternalQueue(queue)
+		j.setAckId(ackId)
 	default:
 		return ErrFailedToCastJob
 	}
@@ -319,12 +324,6 @@ func (w *worker[T, JobType]) processNextJob() error {
 	// claim the job; one that was closed (cancelled or purged) while it waited is skipped
 	if !j.startProcessing() {
 		return nil
-	}
-
-	// only acknowledgeable queues hand out an id; a job of an in-memory queue has a handle whose
-	// Close may read the field concurrently
-	if ackId != "" {
-		j.setAckId(ackId)
 	}
 
 	dispatched = true
